@@ -22,6 +22,7 @@ type undoEntry struct {
 	p   *Value
 	old Value
 	f   func()
+	m   *Map // set for map mutations (write-confinement monitor)
 }
 
 // Finding is a reachable assertion failure or panic together with a model.
@@ -49,6 +50,11 @@ type VM struct {
 	bigRatType  types.Type
 
 	globals  map[*ssa.Global]*Value
+	globalCells map[*Value]*ssa.Global
+	frozen      map[*Value]bool
+	frozenMaps  map[*Map]bool
+	frozenMark  int
+	frozenOn    bool
 	initDone map[*ssa.Package]bool
 	RepoPath string // module path prefix whose package inits are run eagerly
 
@@ -108,7 +114,7 @@ type frame struct {
 }
 
 func New(prog *ssa.Program, pkgs []*ssa.Package, repoPath string) *VM {
-	vm := &VM{Prog: prog, Pkgs: map[string]*ssa.Package{}, globals: map[*ssa.Global]*Value{},
+	vm := &VM{Prog: prog, Pkgs: map[string]*ssa.Package{}, globals: map[*ssa.Global]*Value{}, globalCells: map[*Value]*ssa.Global{},
 		initDone: map[*ssa.Package]bool{}, RepoPath: repoPath, MaxSteps: 2_000_000,
 		Reached: map[string]int{}, Asserted: map[string]int{}, FnSeen: map[string]bool{},
 		Extra: map[string]interface{}{}}
@@ -167,6 +173,7 @@ func (vm *VM) global(g *ssa.Global) *Value {
 	}
 	p := vm.newCell(vm.zero(g.Type().(*types.Pointer).Elem()))
 	vm.globals[g] = p
+	vm.globalCells[p] = g
 	// creation of the cell itself must be undone too: otherwise a later path would
 	// observe a zeroed-but-"initialised" global.
 	vm.undo = append(vm.undo, undoEntry{f: func() { delete(vm.globals, g) }})
@@ -246,7 +253,7 @@ func (vm *VM) mapSet(m *Map, k, v Value) {
 	}
 	k = vm.concreteKey(k)
 	old := m.entries
-	vm.undo = append(vm.undo, undoEntry{f: func() { m.entries = old }})
+	vm.undo = append(vm.undo, undoEntry{f: func() { m.entries = old }, m: m})
 	ne := make([]mapEntry, len(old), len(old)+1)
 	copy(ne, old)
 	for i := range ne {
@@ -267,7 +274,7 @@ func (vm *VM) mapDelete(m *Map, k Value) {
 	old := m.entries
 	for i := range old {
 		if vm.keyEq(old[i].K, k) {
-			vm.undo = append(vm.undo, undoEntry{f: func() { m.entries = old }})
+			vm.undo = append(vm.undo, undoEntry{f: func() { m.entries = old }, m: m})
 			ne := make([]mapEntry, 0, len(old)-1)
 			ne = append(ne, old[:i]...)
 			ne = append(ne, old[i+1:]...)
@@ -1077,6 +1084,21 @@ func (vm *VM) rangeOp(fr *frame, in *ssa.Range) Value {
 
 // permute picks a symbolic permutation of the entries (forks over all orders).
 func (vm *VM) permute(in []mapEntry) []mapEntry {
+	if len(in) > 3 {
+		// larger maps: identity, reversal and rotation by one only (stated bound)
+		out := make([]mapEntry, len(in))
+		copy(out, in)
+		if vm.Decide(vm.SymBool(fmt.Sprintf("maporder_%d", len(vm.trace)))) {
+			return out
+		}
+		if vm.Decide(vm.SymBool(fmt.Sprintf("maporder_%d", len(vm.trace)))) {
+			for i, j := 0, len(out)-1; i < j; i, j = i+1, j-1 {
+				out[i], out[j] = out[j], out[i]
+			}
+			return out
+		}
+		return append(out[1:], out[0])
+	}
 	rest := make([]mapEntry, len(in))
 	copy(rest, in)
 	var out []mapEntry
